@@ -258,7 +258,18 @@ def _as_form(R, form):
     return np.array(R, dtype=float)
 
 
+def _cls(region):
+    """coarse region class used in tags (one replay per entry point x method x class x failure kind)"""
+    for key, name in (('near-identity', 'near-identity'), ('small-', 'small-angle'), ('shortcut-zone', 'small-angle'),
+                      ('near-half-turn', 'near-half-turn'), ('half-turn', 'half-turn'), ('generic', 'generic'),
+                      ('neg-identity', 'identity'), ('identity', 'identity'), ('pure', 'half-turn')):
+        if key in region:
+            return ('perm-' if region.startswith('perm') else '') + name
+    return region
+
+
 def _check_q(o, q, R, where, region, single=False):
+    region = _cls(region)
     o = np.asarray(o)
     if np.iscomplexobj(o):
         return {'tag': f'{where}/{region}-complex-output', 'observed': repr(o), 'expected': 'real array'}
@@ -294,7 +305,7 @@ def o_invert(inp):
     if inp.get('twice'):
         o2 = f(A)
         if cm.maxabs(np.asarray(o2, float), np.asarray(o, float)) > 0 or cm.maxabs(np.array(A, dtype=float), keep) > 0:
-            return {'tag': f'{where}/{region}-second-call-differs', 'observed': o2, 'expected': o}
+            return {'tag': f'{where}/{_cls(region)}-second-call-differs', 'observed': o2, 'expected': o}
     return None
 
 
@@ -331,7 +342,7 @@ def o_agree(inp):
     """all seven choices agree up to sign on one rotation (through one entry point)"""
     q = np.array(inp['q'], float)
     R = cm.Rspec(q)
-    entry, region = inp['entry'], inp.get('region', 'generic')
+    entry, region = inp['entry'], _cls(inp.get('region', 'generic'))
     ref = None
     for method, kw in CHOICES:
         if method in CLOSED and not _in_trio_domain(q):
@@ -356,7 +367,7 @@ def cm_call(f, inp):
     r = call_outcome(f, inp)
     if r[0] == 'raise':
         where = f"{inp.get('entry', '?')}:{inp.get('method', 'all')}{dict(inp.get('kw', {})).get('version', '')}"
-        return {'tag': f"{where}/{inp.get('region', 'any')}-raises-{r[1]}", 'observed': list(r[1:])}
+        return {'tag': f"{where}/{_cls(inp.get('region', 'any'))}-raises-{r[1]}", 'observed': list(r[1:])}
     return r[1]
 
 
